@@ -11,13 +11,15 @@ from props import codec
 
 MSG_CPP = 'message/Message.cpp'
 TU_CPP = '#include "message/Message.cpp"\n'
-FOLLOW = ('PrimitiveTypeDataArray', 'FixedSizeDataArray', 'Queue<', 'DataFlattenerHelper', 'DataUnflattenerHelper', 'RealSizeChecker', 'LittleEndianConverter', 'muscleMin', 'muscleMax', 'status_t', 'WillUnsigned',
+FOLLOW = ('PrimitiveTypeDataArray', 'FixedSizeDataArray', 'FixedSizeFlatObjectArray', 'Point::', 'Rect::', 'Tuple', 'Queue<', 'DataFlattenerHelper', 'DataUnflattenerHelper', 'RealSizeChecker', 'LittleEndianConverter', 'muscleMin', 'muscleMax', 'status_t', 'WillUnsigned',
           'muscleCopy', 'B_REINTERPRET', 'muscleSwapBytes', 'B_SWAP')
 # clang's spelling of T, C type, Itanium code, size, unsigned type with the same size
 TYPES = [('signed char', 'signed char', 'a', 1, 'unsigned char'), ('bool', '_Bool', 'b', 1, 'unsigned char'), ('short', 'short', 's', 2, 'unsigned short'),
          ('int', 'int', 'i', 4, 'unsigned int'), ('long', 'long', 'l', 8, 'unsigned long'), ('float', 'float', 'f', 4, 'unsigned int'),
          ('double', 'double', 'd', 8, 'unsigned long')]
 END = codec.END
+POINT_REC = 'FixedSizeFlatObjectArray<muscle::Point, 8, 1112559188>'   # PointDataArray's base (B_POINT_TYPE)
+RECT_REC = 'FixedSizeFlatObjectArray<muscle::Rect, 16, 1380270932>'    # RectDataArray's base (B_RECT_TYPE)
 _cache = {}
 
 
@@ -34,6 +36,11 @@ def lower():
             if len(r) != (3 if cl == 'int' else 2):
                 raise cxx2c.Unsupported('PrimitiveTypeDataArray<%s>: expected TemplatedFlatten, TemplatedFlattenedSize (and TemplatedUnflatten for int), found %d' % (cl, len(r)))
             roots += r
+        for rec in (POINT_REC, RECT_REC):
+            r = cxx2c.find_functions(L, record=rec, names=['TemplatedFlatten', 'TemplatedFlattenedSize'])
+            if len(r) != 2:
+                raise cxx2c.Unsupported('%s: expected TemplatedFlatten and TemplatedFlattenedSize, found %d' % (rec, len(r)))
+            roots += r
         L.lower_all(roots)
     finally:
         shutil.rmtree(wd, ignore_errors=True)
@@ -42,7 +49,7 @@ def lower():
 
 
 def sname(ct):
-    return ct.replace(' ', '_').replace('_Bool', 'bool')
+    return ct.replace('struct ', '').replace(' ', '_').replace('_Bool', 'bool')
 
 
 PRE = r'''
@@ -50,7 +57,7 @@ PRE = r'''
 # define MV_QCAP 4      /* bound on allocated ring slots in the pre-state */
 #endif
 typedef struct Queue_%(sn)s QT;
-typedef struct PrimitiveTypeDataArray_%(sn)s AT;
+typedef struct %(at)s AT;
 typedef %(ct)s T;
 typedef %(ut)s UT;
 #define DATA(a) (&((struct FixedSizeDataArray_%(sn)s *)(a))->_data)
@@ -67,31 +74,35 @@ typedef %(ut)s UT;
       ((q)->_itemCount == 0 || (q)->_tailIndex == Q_IX(q, (q)->_itemCount - 1)))
 #define MV_MIN(a, b) (((a) < (b)) ? (a) : (b))
 UT mv_v;                /* ghost: bit pattern of item mv_k of the sequence in the pre-state */
+UT mv_v2;               /* ghost: bits 64..127 of that item (16-byte items only) */
+#define MV_BITS_HI(U, x) (*(const U *)((const char *)&(x) + 8))
 unsigned int mv_n;      /* ghost: number of items in the pre-state */
 unsigned int mv_head;   /* ghost: head index (so that a counterexample says whether the ring was wrapped) */
 '''
 
 
-def contracts_for(L, cl, ct, code, size, ut):
-    fl = codec.pick(L, r'^_ZNK6muscle22PrimitiveTypeDataArrayI%sE16TemplatedFlattenE' % code)
-    fs = codec.pick(L, r'^_ZNK6muscle22PrimitiveTypeDataArrayI%sE22TemplatedFlattenedSizeEj$' % code)
+def contracts_for(L, cl, ct, code, size, ut, at=None, rx=None):
+    fl = codec.pick(L, (rx or r'^_ZNK6muscle22PrimitiveTypeDataArrayI%sE' % code) + '16TemplatedFlattenE')
+    fs = codec.pick(L, (rx or r'^_ZNK6muscle22PrimitiveTypeDataArrayI%sE' % code) + '22TemplatedFlattenedSizeEj$')
     boolreq = ' && (mv_k >= mv_n || mv_v <= 1)' if ct == '_Bool' else ''
-    c = (PRE % dict(sn=sname(ct), ct=ct, ut=ut) +
+    hi_req = ' && MV_BITS_HI(UT, Q_AT(DATA(this), mv_k)) == mv_v2' if size == 16 else ''
+    hi_ens = ' && MV_LE8(__CPROVER_old(flat->_writeTo) + 16ul * mv_k + 8) == (unsigned long)mv_v2' if size == 16 else ''
+    c = (PRE % dict(sn=sname(ct), ct=ct, ut=ut, at=at or ('PrimitiveTypeDataArray_' + sname(ct))) +
          'void %s(AT *this, DF *flat, unsigned int maxItemsToFlatten)\n'
          '__CPROVER_requires(__CPROVER_is_fresh(this, sizeof(AT)) && WF_QT(DATA(this)) && mv_n == DATA(this)->_itemCount && mv_head == DATA(this)->_headIndex)\n'
          '/* the caller (Message::Flatten) sized the buffer with FlattenedSize() */\n'
          '__CPROVER_requires(WF_DF(flat) && DF_ROOM(flat) >= (unsigned long)%d * MV_MIN(mv_n, maxItemsToFlatten))\n'
-         '__CPROVER_requires((mv_k >= mv_n || MV_BITS(UT, Q_AT(DATA(this), mv_k)) == mv_v)%s)\n'
+         '__CPROVER_requires((mv_k >= mv_n || (MV_BITS(UT, Q_AT(DATA(this), mv_k)) == mv_v%s))%s)\n'
          '__CPROVER_assigns(flat->_writeTo, __CPROVER_object_whole(flat->_origWriteTo))\n'
          '/* size exactness */\n'
          '__CPROVER_ensures(flat->_writeTo == __CPROVER_old(flat->_writeTo) + (unsigned long)%d * MV_MIN(mv_n, maxItemsToFlatten))\n'
          '/* item k of the sequence, little endian, at offset sizeof(T)*k */\n'
-         '__CPROVER_ensures(mv_k >= MV_MIN(mv_n, maxItemsToFlatten) || MV_LE%d(__CPROVER_old(flat->_writeTo) + (unsigned long)%d * mv_k) == (unsigned long)mv_v)\n;\n'
+         '__CPROVER_ensures(mv_k >= MV_MIN(mv_n, maxItemsToFlatten) || (MV_LE%d(__CPROVER_old(flat->_writeTo) + (unsigned long)%d * mv_k) == (unsigned long)mv_v%s))\n;\n'
          'unsigned int %s(AT *this, unsigned int maxItemsToFlatten)\n'
          '__CPROVER_requires(__CPROVER_is_fresh(this, sizeof(AT)) && WF_QT(DATA(this)) && mv_n == DATA(this)->_itemCount)\n'
          '__CPROVER_assigns()\n'
          '__CPROVER_ensures(__CPROVER_return_value == %du * MV_MIN(mv_n, maxItemsToFlatten))\n;\n'
-         % (fl, size, boolreq, size, size, size, fs, size))
+         % (fl, size, hi_req, boolreq, size, min(size, 8), size, hi_ens, fs, size))
     return fl, fs, c
 
 
@@ -146,19 +157,23 @@ def jobs(tier):
     # TemplatedUnflatten (the decode half): the contract is written (UNFLAT above) but the job exhausts memory (> 24 GB) once
     # EnsureSizeAux has to be inlined (it cannot be replaced by its contract here, DESIGN 9.1 (d)): NOT registered, not claimed
     J = [unflatten_job(L, tier)] if os.environ.get('MV_SLOW') else []
-    for cl, ct, code, size, ut in TYPES:
-        fl, fs, c = contracts_for(L, cl, ct, code, size, ut)
+    POINT = ('muscle::Point', 'struct Point', None, 8, 'unsigned long', 'FixedSizeFlatObjectArray_Point_8_1112559188', r'^_ZNK6muscle24FixedSizeFlatObjectArrayINS_5PointELi8ELj1112559188EE')
+    RECT = ('muscle::Rect', 'struct Rect', None, 16, 'unsigned long', 'FixedSizeFlatObjectArray_Rect_16_1380270932', r'^_ZNK6muscle24FixedSizeFlatObjectArrayINS_4RectELi16ELj1380270932EE')
+    # RectDataArray: the contract is generated too, but the job runs the SAT solver out of memory (12 GB): only with MV_SLOW, not claimed
+    for ent in [t + (None, None) for t in TYPES] + [POINT] + ([RECT] if os.environ.get('MV_SLOW') else []):
+        cl, ct, code, size, ut, at, rx = ent
+        fl, fs, c = contracts_for(L, cl, ct, code, size, ut, at, rx)
         m = re.search(r'struct Queue_%s \{.*?_smallQueue\[(\d+)\];' % sname(ct), L.header(), re.S)
         if not m:
             raise cxx2c.Unsupported('Queue<%s>: inline array not found in the lowered record' % cl)
         slots = max(4, int(m.group(1)))     # largest ring in the pre-state: the inline array or a heap block of MV_QCAP slots
-        gh = 'mv_init_globals(); unsigned int k_, n_, h_; UT v_; mv_k = k_; mv_n = n_; mv_head = h_; mv_v = v_;'
+        gh = 'mv_init_globals(); unsigned int k_, n_, h_; UT v_, w_; mv_k = k_; mv_n = n_; mv_head = h_; mv_v = v_; mv_v2 = w_;'
         h1 = '\nvoid h_main(void) { %s AT *a; DF *f; unsigned int m; %s(a, f, m); %s }\n' % (gh, fl, END)
         h2 = '\nvoid h_main(void) { %s AT *a; unsigned int m; unsigned int r = %s(a, m); %s }\n' % (gh, fs, END)
         J.append(Job('arr_%s_TemplatedFlatten' % sname(ct), codec.tu_for(L, [fl], c, h1), 'h_main', enforce=[fl], loops=False, unwind=slots + 2, klass='bounded',
                      bound='rings of at most %d allocated slots (' % slots + 'every head position, wrapped or not, inline and heap storage, every content, every maxItemsToFlatten); loop unwound with unwinding assertions',
-                     functions=[(MSG_CPP, 'PrimitiveTypeDataArray<%s>::TemplatedFlatten' % cl), ('util/Queue.h', 'Queue<%s>::operator[] / GetItemAtUnchecked / InternalizeIndex' % cl),
+                     functions=[(MSG_CPP, ('FixedSizeFlatObjectArray<%s>' if at else 'PrimitiveTypeDataArray<%s>') % cl + '::TemplatedFlatten'), ('util/Queue.h', 'Queue<%s>::operator[] / GetItemAtUnchecked / InternalizeIndex' % cl),
                                 (codec.DF_H, 'DataFlattenerHelper::WritePrimitive<%s>' % cl)], timeout=900, split=0))
         J.append(Job('arr_%s_TemplatedFlattenedSize' % sname(ct), codec.tu_for(L, [fs], c, h2), 'h_main', enforce=[fs], loops=False, unwind=2, klass='proved',
-                     functions=[(MSG_CPP, 'PrimitiveTypeDataArray<%s>::TemplatedFlattenedSize' % cl)], timeout=300, split=0))
+                     functions=[(MSG_CPP, ('FixedSizeFlatObjectArray<%s>' if at else 'PrimitiveTypeDataArray<%s>') % cl + '::TemplatedFlattenedSize')], timeout=300, split=0))
     return J
